@@ -38,18 +38,20 @@ CF = "qkeras.qtools.quantized_operators.accumulator_factory"
 MG = "qkeras.qtools.quantized_operators.merge_factory"
 MF = "qkeras.qtools.quantized_operators.multiplier_factory"
 
-DOM_QUICK = {"b1": range(1, 11), "b2": range(1, 11), "i1": range(0, 7),
-             "i2": range(0, 7), "f1": range(0, 8), "f2": range(0, 8),
+DOM_QUICK = {"b1": range(1, 11), "b2": range(1, 11), "i1": range(-3, 7),
+             "i2": range(-3, 7), "f1": range(0, 8), "f2": range(0, 8),
              "bw": range(1, 9), "bx": range(1, 9),
-             "iw": range(0, 5), "ix": range(0, 5),
+             # integer bits may be negative (quantized_bits(4, -2); a
+             # multiplier adjusted for auto_po2 scales below 1)
+             "iw": range(-4, 5), "ix": range(-4, 5),
              "k0": (1, 2, 3, 5, 1024, 2 ** 15, 2 ** 15 + 1, 2 ** 20 - 1,
                     2 ** 20), "k1": (1, 2, 3, 7),
              "k2": (1, 2, 3, 64), "k3": (1, 2, 16)}
 # thorough: witness search for non-identical forms over wider operands
-DOM_THOROUGH = {"b1": range(1, 25), "b2": range(1, 25), "i1": range(0, 13),
-                "i2": range(0, 13), "f1": range(0, 13), "f2": range(0, 13),
+DOM_THOROUGH = {"b1": range(1, 25), "b2": range(1, 25), "i1": range(-4, 13),
+                "i2": range(-4, 13), "f1": range(0, 13), "f2": range(0, 13),
                 "bw": range(1, 17), "bx": range(1, 17),
-                "iw": range(0, 9), "ix": range(0, 9),
+                "iw": range(-6, 9), "ix": range(-6, 9),
                 "k0": (1, 2, 3, 5, 9, 17, 1024, 4097, 2 ** 15, 2 ** 15 + 1,
                        2 ** 16 + 1, 2 ** 17 + 3, 2 ** 20 - 1, 2 ** 20),
                 "k1": (1, 2, 3, 5, 7), "k2": (1, 2, 3, 64, 513),
